@@ -268,7 +268,7 @@ def generate(R, tier, focus):
         nsim = R.randint(1, 12) if not thorough else R.choice((1, 5, 25, 100))
         op = {'op': 'TEST', 'test': test, 'obs': oi, 'seed': R.choice(seeds), 'nsim': nsim, 'fc': which,
               'mode': 'rng', 'overrides': {}, 'p_overrides': {},
-              'seed_type': R.choice(('int', 'int', 'int', 'int64', 'uint32'))}
+              'seed_type': R.choice(('int', 'int', 'int', 'int64', 'uint32')), 'verbose': R.random() < 0.2}
         if test in CAT_TESTS:
             op['seed'] = R.choice((0, 0, 1, 7, None))
             ops.append(op)
@@ -527,14 +527,14 @@ def typed_seed(seed, seed_type):
     return numpy.int64(seed) if seed_type == 'int64' else numpy.uint32(seed)
 
 
-def run_gridded_test(test, fc, obs, nsim, seed, random_numbers, ncol=None):
+def run_gridded_test(test, fc, obs, nsim, seed, random_numbers, ncol=None, verbose=False):
     from csep.core import poisson_evaluations as pe
     from csep.core import binomial_evaluations as be
     from csep.core import brier_evaluations as br
     f = {'L': pe.likelihood_test, 'CL': pe.conditional_likelihood_test, 'S': pe.spatial_test,
          'M': pe.magnitude_test, 'BS': be.binary_spatial_test, 'BCL': be.binary_conditional_likelihood_test,
          'BRIER': br.brier_score_test}[test]
-    kw = dict(num_simulations=nsim, seed=seed, verbose=False)
+    kw = dict(num_simulations=nsim, seed=seed, verbose=verbose)
     if random_numbers is not None:
         kw['random_numbers'] = numpy.array(random_numbers, dtype=float).reshape(len(random_numbers), ncol if ncol is not None else -1)
     return f(fc, obs, **kw)
@@ -709,7 +709,8 @@ def _execute(scn, ctx, rng, collect_results):
         if test in BINARY_TESTS and not perturbed and inject is None:
             budget = liveness_budget(test, rates, n_active, op['nsim'])
         rng.mark(u_over=u_over, p_over=p_over, budget=budget)
-        r = call(run_gridded_test, test, fc, obs_cat, op['nsim'], typed_seed(seed, op.get('seed_type')), inject, op.get('ncol'))
+        r = call(run_gridded_test, test, fc, obs_cat, op['nsim'], typed_seed(seed, op.get('seed_type')), inject, op.get('ncol'),
+                 bool(op.get('verbose')))
         calls = [c for c in rng.calls if c[0] != 'seed']
         n_seed_calls = sum(1 for c in rng.calls if c[0] == 'seed')
         if r[0] == 'budget':
